@@ -103,8 +103,11 @@ TRUSTED = ("Trusted: rustc MIR -> Kani GOTO translation, CBMC, CaDiCaL, z3; the 
            "coverage.bounds / outside_the_bounds in the evidence.")
 
 NOT_APPLICABLE = {
-    "C01": "whole `fml run` pipeline (regex lexer + LALR parser + compiler + VM on a closed program) cannot be encoded for a solver within reach; "
-           "its mechanisms are decided per kernel under C02, C05, C09, C12-C15 (DESIGN 5, 7)",
+    "C01": "quantifies over all closed programs: a closed program leaves nothing symbolic (one execution decides it), and the space of programs means a "
+           "symbolic source through the regex lexer and LALR driver or an AST of unbounded shape through compiler and an interpreter loop of "
+           "program-dependent length - no meaningful bound. Each mechanism of the pipeline is decided separately for all contents of stated shapes "
+           "(C02-C05, C07, C09, C10, C12-C16; the compiler templates of C02/C12/C13 compare the emitted code's trace with a README evaluator); their "
+           "composition is an argument on paper, not a solver verdict (DESIGN 7)",
     "C06": "lives in main.rs (clap, files, processes) and in serde_json / serde_yaml / serde-lexpr text codecs: I/O, FFI and third-party "
            "parsers whose loops grow with input are not encodable for CBMC or z3 (DESIGN 5, 7)",
 }
